@@ -11,6 +11,7 @@ import (
 
 	"verif/sim/core"
 	"verif/sim/lib"
+	"verif/sim/ref"
 	"verif/sim/seam"
 	"verif/sim/world"
 )
@@ -32,6 +33,7 @@ type C11Plan struct {
 	Recips []LRecip `json:"recips"`
 	PLen   int      `json:"plen"`
 	Tape   uint64   `json:"tape"`
+	RandFail int    `json:"rand_fail,omitempty"` // k>0: draw k-1 from the CSPRNG fails once (a recipient that draws there fails to wrap)
 }
 
 // simRecipient wraps to a real X25519 key and declares labels per variant.
@@ -91,7 +93,7 @@ func (C11) Meta() core.Meta {
 		Assumptions: []string{"label lists may repeat a label; where the set reading and the sorted-list reading of 'same labels' disagree nothing is asserted about acceptance (only that a refusal wrote nothing)", "plugin recipients' labels are exercised in the C16 engine, not here"},
 		Real:        []string{"filippo.io/age Encrypt (label comparison, wrap loop, header marshal)", "native recipients"},
 		Stub:        []string{"sim-owned recipients with chosen label lists / injected wrap failure", "destination (write-call counter)", "crypto/rand.Reader (tape)"},
-		FaultKinds:  []string{"fault.wrap_failure"},
+		FaultKinds:  []string{"fault.wrap_failure", "fault.csprng_read_fails_once"},
 		Probes:      []string{"probe.equal_sets_different_order", "probe.proper_subset", "probe.disjoint", "probe.empty_vs_absent", "probe.scrypt_with_other", "probe.two_scrypt", "probe.refused_labels", "probe.refused_wrap_failure", "probe.accepted", "probe.fail_at_last_position", "probe.differ_at_last_position", "probe.repeated_label_same_multiset", "probe.repeated_label_sets_differ", "probe.repeated_label_ambiguous", "probe.refused_after_more_than_4KiB_of_header", "probe.labels_with_space_or_empty"},
 	}
 }
@@ -220,6 +222,10 @@ func (C11) Generate(r *core.RNG, tier string, idx uint64) interface{} {
 		p.Recips[pos] = LRecip{Native: &world.Key{T: "s", K: 0, WF: 1}}
 		p.Recips = append(p.Recips, LRecip{Native: &world.Key{T: "s", K: 1, WF: 1}})
 	}
+	if r.Chance(1, 8) {
+		// the entropy source fails once at some draw (file key, a recipient's ephemeral/salt/label, nonce)
+		p.RandFail = 1 + r.Intn(2*len(p.Recips)+3)
+	}
 	return p
 }
 
@@ -244,6 +250,11 @@ func (C11) Shrinks(plan interface{}) []interface{} {
 	if p.PLen > 0 {
 		q := *p
 		q.PLen = 0
+		out = append(out, &q)
+	}
+	if p.RandFail > 1 {
+		q := *p
+		q.RandFail--
 		out = append(out, &q)
 	}
 	return out
@@ -402,8 +413,17 @@ func (e C11) Execute(plan interface{}, c *core.Ctx) *core.Verdict {
 	}
 
 	d := seam.NewDisk(nil, c.Log)
-	restore := seam.NewTape(p.Tape).Install()
+	tape := seam.NewTape(p.Tape)
+	if p.RandFail > 0 && expectOK && !ambiguous {
+		// (only on lists that would otherwise be accepted: one cause of refusal per case)
+		tape.FailAt = p.RandFail - 1
+	}
+	restore := tape.Install()
 	w, err := age.Encrypt(d, recips...)
+	randFired := tape.FailAt >= 0 && len(tape.Reads) > tape.FailAt
+	if randFired {
+		c.Stats.Inc("fault.csprng_read_fails_once")
+	}
 	var P []byte
 	if err == nil {
 		P = core.Pattern(p.Tape, p.PLen)
@@ -416,7 +436,10 @@ func (e C11) Execute(plan interface{}, c *core.Ctx) *core.Verdict {
 	}
 	restore()
 	c.Log.Add("Encrypt(%s) -> err=%v, dst write calls=%d", skeleton, err, d.Calls)
-	c.Stats.Eval(skeleton, len(p.Recips) > 1 || anyFail)
+	if randFired {
+		skeleton += fmt.Sprintf("randfail%d,", tape.FailAt)
+	}
+	c.Stats.Eval(skeleton, len(p.Recips) > 1 || anyFail || randFired)
 	if anyFail {
 		c.Stats.Inc("fault.wrap_failure")
 	}
@@ -425,6 +448,22 @@ func (e C11) Execute(plan interface{}, c *core.Ctx) *core.Verdict {
 	}
 	if err != nil && (bigBefore || len(p.Recips) > 40) {
 		c.Stats.Inc("probe.refused_after_more_than_4KiB_of_header")
+	}
+	if err != nil && randFired {
+		// the entropy source failed once. Before or inside a recipient's Wrap that is a wrap failure and nothing
+		// may have been written; after the last Wrap (the payload nonce) the header is already out, complete.
+		if w != nil {
+			return core.Fail("C11.writer_with_error", "Encrypt returned an error and a writer")
+		}
+		if d.Calls != 0 {
+			if h, _, perr := ref.ParseHeader(append(append([]byte(nil), d.Data...), make([]byte, 16)...)); perr != nil || len(h.Stanzas) < len(p.Recips) {
+				return core.Fail("C11.wrote_before_refusal", "the CSPRNG failed at draw %d, Encrypt refused (%v) but had already written %d bytes that are not a complete header; list %s", p.RandFail-1, err, len(d.Data), skeleton)
+			}
+			c.Stats.Inc("probe.randfault_after_header")
+			return nil
+		}
+		c.Stats.Inc("probe.randfault_refused_nothing_written")
+		return nil
 	}
 	if err != nil {
 		if expectOK && !ambiguous {
@@ -459,6 +498,9 @@ func (e C11) Execute(plan interface{}, c *core.Ctx) *core.Verdict {
 		}
 		res := lib.Decrypt(seam.NewSource(d.Data, seam.Delivery{Mode: "whole"}, nil, nil).Reader(), false, []age.Identity{world.Identity(k)}, lib.ReadSched{Mode: "all"}, nil)
 		if !res.Clean() || !bytes.Equal(res.Released, P) {
+			if randFired {
+				return core.Fail("C11.wrap_failure_swallowed", "the CSPRNG failed once at draw %d, Encrypt reported success, and recipient #%d cannot decrypt the file (%s): a failed wrap was not a refusal; list %s", p.RandFail-1, i, res.ErrText(), skeleton)
+			}
 			return core.Fail("C11.accepted_but_unreadable", "accepted list, but recipient #%d cannot decrypt: %s", i, res.ErrText())
 		}
 	}
